@@ -37,7 +37,7 @@ def evaluate(chk, run):
             sig = "names"
         else:
             sig = "placeholder"
-        agg.setdefault((r["name"], sig), []).append((ri, v))
+        agg.setdefault((r["name"], sig + ("" if r.get("sub") is None else "/subset")), []).append((ri, v))
     for (name, sig), lst in sorted(agg.items()):
         ri, v = lst[0]
         r = run.records[ri]
@@ -64,7 +64,7 @@ def run(chk, tier, seed):
     npres = 2 if tier == "quick" else 3
     pres = [le.presentation(seed, i) for i in range(npres)]
     subsets = {"all_upto": 6, "sampled": 1} if tier == "quick" else {"all_upto": 8, "sampled": 3}
-    lr = le.LearnRun(named, (1, 2), pres, seed=seed, max_jobs=400 if tier == "quick" else 2000, subsets=subsets).run()
+    lr = le.LearnRun(named, (1, 2), pres, seed=seed, max_jobs=400 if tier == "quick" else 500, subsets=subsets).run()
     ndocs, stats = evaluate(chk, lr)
     nstr, gr = grammar_vs_parser(6 if tier == "quick" else 7)
     failed = sum(1 for r in lr.records if not r["res"].get("ok"))
